@@ -2131,6 +2131,7 @@ func (self *LockDB) Lock(serverProtocol ServerProtocol, command *protocol.LockCo
 						}
 					}
 					if currentLock.isAof {
+						command.TimeoutFlag &= ^uint16(protocol.TIMEOUT_FLAG_REQUIRE_ACKED)
 						_ = lockManager.PushLockAof(currentLock, AOF_FLAG_UPDATED)
 					}
 				}
